@@ -58,7 +58,15 @@ class InitMethod(MethodDescriptor):
                         if instance_attr_spec.owner is not parent:
                             continue
                         if attr in kwargs:
-                            parent_kwargs[attr] = kwargs.pop(attr)
+                            # The parent constructor will not copy this value
+                            # (it is not the owner of the instance metadata),
+                            # so we protect the caller's object here.
+                            value = kwargs.pop(attr)
+                            parent_kwargs[attr] = (
+                                value
+                                if instance_attr_spec.do_not_copy
+                                else protect_via_deepcopy(value)
+                            )
                         else:
                             # Parent constructor may may be overridden, and not pick up
                             # subclass defaults. We pre-emptively solve this here.
